@@ -573,11 +573,21 @@ class JSONPathEnvironment:
         return False
 
     def _contains(self, container: object, item: object) -> bool:
-        try:
-            return item in container  # type: ignore
-        except TypeError:
-            # A non-string in a string or an unhashable value in a mapping, for example.
+        if isinstance(item, NodeList):
+            # An empty node list. Nothing is not a member of anything, not even
+            # of an array that contains an empty array.
             return False
+
+        if isinstance(container, (str, Mapping)):
+            try:
+                return item in container
+            except TypeError:
+                # A non-string in a string or an unhashable value in a mapping.
+                return False
+
+        # Array membership is by JSON equality, as for `==`. Remember that
+        # 1 == True and 0 == False in Python.
+        return any(self._eq(member, item) for member in container)  # type: ignore
 
     def _eq(self, left: object, right: object) -> bool:  # noqa: PLR0911
         if isinstance(right, NodeList):
